@@ -19,9 +19,10 @@ SectorGroups == {<<[sector |-> 1, expiry |-> epoch + x, claims |-> <<k>>]>> : k 
          \cup {<<[sector |-> 1, expiry |-> epoch + MinTerm, claims |-> <<k1, k2>>]>> : k1, k2 \in {q \in ClaimItems : q.data = "dA" /\ q.client = "c1"}}
          \* two sector groups in one call (both may succeed: the burn must cover the sum), also with the same
          \* allocation in both, and a group without claims after one with a claim
-         \cup {<<[sector |-> 1, expiry |-> epoch + MinTerm, claims |-> <<k1>>],
-                 [sector |-> 2, expiry |-> epoch + MinTerm, claims |-> <<k2>>]>> :
-                    k1, k2 \in {q \in ClaimItems : q.data = "dA" /\ q.client = "c1" /\ (Rich \/ q.id <= 2)}}
+         \cup {<<[sector |-> 1, expiry |-> epoch + MinTerm, claims |-> <<kk[1]>>],
+                 [sector |-> 2, expiry |-> epoch + MinTerm, claims |-> <<kk[2]>>]>> :
+                    kk \in {pr \in {q \in ClaimItems : q.data = "dA" /\ q.client = "c1"} \X {q \in ClaimItems : q.data = "dA" /\ q.client = "c1"} :
+                              Rich \/ <<pr[1].id, pr[2].id>> \in {<<1, 2>>, <<1, 1>>}}}
          \cup {<<[sector |-> 1, expiry |-> epoch + MinTerm, claims |-> <<k1>>],
                  [sector |-> 2, expiry |-> epoch + MinTerm, claims |-> <<>>]>> :
                     k1 \in {q \in ClaimItems : q.data = "dA" /\ q.client = "c1" /\ q.id = 1}}
